@@ -709,6 +709,29 @@ def list_builtin(ex, fr, c, args, dty):
                         xs[j], xs[j + 1] = T.imin(a, b), T.imax(a, b)
                 _wr(ex, args[0], ListV(tuple(IntV(x, ty) for x in xs), v.ty))
                 return UNIT
+    m = re.match(r"^core::slice::<impl \[(.*)\]>::(sort_unstable_by_key|sort_by_key)(::<.*>)?$", c)
+    if m and isinstance(args[0], RefV):
+        v = deref(ex, args[0])
+        if isinstance(v, ListV) and len(v.items) <= 4:
+            # insertion sort on the keys computed by the real key closure; every comparison of symbolic keys forks the path
+            # (an unstable sort may order equal keys either way: equal keys keep their input order here, which is one of the allowed results)
+            items = list(v.items)
+            keys = []
+            for it in items:
+                k = ex.call_value(fr, args[1], [ex.ctx.ref_to(it)], "?")
+                if not isinstance(k, IntV):
+                    raise Unsupported("sort key is not an integer")
+                keys.append(k.t)
+            order = []
+            for i in range(len(items)):
+                pos = len(order)
+                for j, oj in enumerate(order):
+                    if ex.decide(T.lt(keys[i], keys[oj])):
+                        pos = j
+                        break
+                order.insert(pos, i)
+            _wr(ex, args[0], ListV(tuple(items[i] for i in order), v.ty))
+            return UNIT
     m = re.match(r"^<(?:std::vec::|alloc::vec::)?Vec<(.*)> as (?:std::ops::|core::ops::)?Index<usize>>::index$", c) or \
         re.match(r"^<\[(.*)\] as (?:std::ops::|core::ops::)?Index<usize>>::index$", c)
     if m and isinstance(args[0], RefV):
